@@ -705,6 +705,9 @@ package valid
 //@   ensures vs.ok(v) && cache.inv()
 
 //@ func (*VStruct).exist
+//@   at call validate#2 assert [C04 time.skip] rv.type(tv$0) != timeReflectType && !rv.isZero(tv$0)
+//@   at call validate#1 assert [C04 zero.skip] !rv.isZero(tv$0)
+//@   at call validate#0 assert [C04 zero.skip] !rv.isZero(tv$0)
 //@   at call GetJoinValidErrStr#* assert [C02 C04 exist.names] arg0 == structName$0 && arg1 == fieldName$0
 //@   at call validate#2 assert [C04 path.field] arg1 == structName$0 ++ "." ++ fieldName$0 && arg2 == tv$0
 //@   at call validate#1 assert [C04 path.index] arg1 == structName$0 ++ "." ++ fieldName$0 ++ "[" ++ decInt(i) ++ "]" && arg2 == rv.index(tv$0, i)
@@ -723,6 +726,8 @@ package valid
 //@   loop#1 invariant vs.ok(v) && cache.inv() && iter != nil && mi.src(iter) == tv && mi.pos(iter) >= -1
 
 //@ func (*VStruct).validate
+//@   at call exist#0 assert [C04 marked.only] validKey == "exist" && cacheStructType.fieldInfos[fieldNum].export && validName != ""
+//@   at call required#0 assert [C03 C04 marked.only] validKey == "required" && cacheStructType.fieldInfos[fieldNum].export && validName != ""
 //@   at call required#0 assert [C02 C04 path.required] arg1 == ite(structName$0 == "", cacheStructType.name, structName$0) && arg2 == cacheStructType.fieldInfos[fieldNum].name
 //@   at call exist#0 assert [C04 path.exist] arg1 == true && arg2 == ite(structName$0 == "", cacheStructType.name, structName$0) && arg3 == cacheStructType.fieldInfos[fieldNum].name && arg5 == rv.field(tv, fieldNum)
 //@   at call CommonValidFn#0 assert [C02 C04 path.rule] arg2 == ite(structName$0 == "", cacheStructType.name, structName$0) && arg3 == cacheStructType.fieldInfos[fieldNum].name
